@@ -358,20 +358,27 @@ class CallbacksRegistry:
             callback._iscoro for executor in self._registry.values() for callback in executor
         )
 
-    def call(self, key: str, *args, **kwargs):
+    # The executor key is taken from the positional arguments: `kwargs` are the user's, and
+    # may hold any name, `key` included.
+
+    def call(self, *args, **kwargs):
+        key, *args = args
         if key not in self._registry:
             return []
         return self._registry[key].call(*args, **kwargs)
 
-    def async_call(self, key: str, *args, **kwargs):
+    def async_call(self, *args, **kwargs):
+        key, *args = args
         return self._registry[key].async_call(*args, **kwargs)
 
-    def all(self, key: str, *args, **kwargs):
+    def all(self, *args, **kwargs):
+        key, *args = args
         if key not in self._registry:
             return True
         return self._registry[key].all(*args, **kwargs)
 
-    def async_all(self, key: str, *args, **kwargs):
+    def async_all(self, *args, **kwargs):
+        key, *args = args
         return self._registry[key].async_all(*args, **kwargs)
 
     def str(self, key: str) -> str:
